@@ -8,7 +8,7 @@
 From VF Require Import Base.Prelude Gen.Enums Gen.Configs Gen.Policy Gen.Registry Gen.Checks
      Gen.MatDesc Gen.InstChecks Gen.Scopes Model.Recipe Model.Check Model.Graph
      Model.Plan Model.Perform Spec.WF Proofs.ListFacts Proofs.PerformStep Proofs.ModeProofs
-     Proofs.UntouchedProofs Model.Insts Proofs.InstsCover Proofs.ReadersProofs.
+     Proofs.UntouchedProofs Model.Insts Proofs.InstsCover Proofs.ReadersProofs Proofs.PerformInv Proofs.SkeletonInv Proofs.ReadersOrig.
 
 (* (a) mode -> per-operand transformation, for EVERY config in one of the
    three modes (static-range: integer compute with an activation config;
@@ -234,6 +234,32 @@ Theorem C03_listed_consumers_read_the_inserted_tensor_until_the_end :
                readers_profile (ntens g) g3 = moved_profile (i_tensor i) cs g.
 Proof. exact inserted_tensor_readers. Qed.
 Print Assumptions C03_listed_consumers_read_the_inserted_tensor_until_the_end.
+
+(* ... and in terms of the INPUT model, for the commonest shape of a static
+   plan (the tensor's list is one inserted QUANTIZE or DEQUANTIZE — a float
+   graph input feeding quantized operators, a quantized constant feeding float
+   ones): after the WHOLE run the j-th original operator reads the new tensor
+   at exactly the operand slots where it read t in the input model iff the
+   instruction lists j, and no other original operator reads it.  The
+   performer's id maps are identified with the original operators through the
+   skeleton invariant; hypotheses: well-formed input, uids of original ops
+   distinct from the inserted marker, sane instructions (what the generator
+   emits, Proofs/InstsSane.v), nothing before names t. *)
+Theorem C03_single_insertion_is_read_by_exactly_the_listed_operators :
+  forall m0 pre ti0 post m' k g0 i0,
+    Forall wf_sg (m_subgraphs m0) -> uids_ok m0 ->
+    (forall ti i, In ti (pre ++ ti0 :: post) -> In i (ti_insts ti) -> sane m0 (ti_sg ti) i) ->
+    ids_ok (pre ++ ti0 :: post) ->
+    nth_opt (m_subgraphs m0) k = Some g0 ->
+    ti_sg ti0 = Z.of_nat k -> ti_insts ti0 = [i0] ->
+    (i_trans i0 = Tr_ADD_QUANTIZE \/ i_trans i0 = Tr_ADD_DEQUANTIZE) ->
+    Forall (fun c => -1 <= c) (i_consumers i0) ->
+    never_names k (i_tensor i0) pre ->
+    transform_graph m0 (pre ++ ti0 :: post) = Ok m' ->
+    exists x' g', nth_opt (m_subgraphs m') k = Some g' /\ ntens g0 <= x' /\
+                  readers_profile x' g' = moved_profile (i_tensor i0) (i_consumers i0) g0.
+Proof. exact single_insertion_readers. Qed.
+Print Assumptions C03_single_insertion_is_read_by_exactly_the_listed_operators.
 
 (* non-vacuity: QUANTIZE inserted on the graph input of x --op--> y for consumer
    0: the new tensor 2 is read by the operator with uid 0 at slot 0 *)
